@@ -143,8 +143,8 @@ func buildBatch(rng *rand.Rand, schema *arrow.Schema, rows int, idBase int64, me
 	for i, f := range schema.Fields() {
 		b := array.NewBuilder(mem, f.Type)
 		for r := 0; r < rows; r++ {
-			if i == 0 {
-				b.(*array.Int64Builder).Append(idBase + int64(r))
+			if ib, ok := b.(*array.Int64Builder); ok && i == 0 {
+				ib.Append(idBase + int64(r))
 			} else {
 				appendValue(b, rng, f.Nullable, wide)
 			}
@@ -208,7 +208,11 @@ func metaEqual(a, b arrow.Metadata) bool {
 
 // compareBatches reports in which of the three respects the property names
 // (schema, values, custom metadata) got differs from want; "" when equal.
-func compareBatches(want, got arrow.RecordBatch) string {
+func compareBatches(want, got arrow.RecordBatch) string { return compareBatchesWild(want, got, nil) }
+
+// compareBatchesWild is compareBatches where, for the custom-metadata keys in
+// wild, only presence is compared.
+func compareBatchesWild(want, got arrow.RecordBatch, wild []string) string {
 	var diffs []string
 	ws, gs := want.Schema(), got.Schema()
 	if !ws.Equal(gs) || !metaEqual(ws.Metadata(), gs.Metadata()) {
@@ -224,8 +228,23 @@ func compareBatches(want, got arrow.RecordBatch) string {
 			}
 		}
 	}
-	if !metaEqual(customMeta(want), customMeta(got)) {
+	if !metaEqual(blank(customMeta(want), wild), blank(customMeta(got), wild)) {
 		diffs = append(diffs, "metadata")
 	}
 	return strings.Join(diffs, "+")
+}
+
+func blank(m arrow.Metadata, wild []string) arrow.Metadata {
+	if len(wild) == 0 {
+		return m
+	}
+	keys, vals := append([]string(nil), m.Keys()...), append([]string(nil), m.Values()...)
+	for i, k := range keys {
+		for _, w := range wild {
+			if k == w {
+				vals[i] = "*"
+			}
+		}
+	}
+	return arrow.NewMetadata(keys, vals)
 }
